@@ -305,11 +305,14 @@ Definition obj_roundtrip_hist (path : list N) (w : walk) (kind : N) (gone : list
    staged again into the same odb and checked out.  Staging in the model is cache-free: it hashes the
    bytes that are there now; that a hash-state cache changes nothing is what the correspondence with
    runs WITH a State checks (the cache's own soundness is C13's theorem). *)
-Definition restage_val (path : list N) (w1 w2 : walk) : val :=
+Definition restage_val (path : list N) (w1 w2 : walk) (gone : list (list N)) : val :=
   match stage md5_hex path w1 with
   | Err c => VL [VN 0; VN c]
   | Ok sg1 =>
-      match stage_from md5_hex (sg_store sg1) path w2 with
+      (* objects deleted from the store between the two builds; the staging references of the first
+         build are gone with it: every build references the paths it hashed itself *)
+      let s0 := filter (fun ob => negb (existsb (list_N_eqb (fst ob)) gone)) (sg_store sg1) in
+      match stage_from md5_hex s0 path w2 with
       | Err c => VL [VN 0; VN c]
       | Ok sg =>
           VL [VN 1; VB (sg_oid sg1); VB (sg_oid sg); VN (sg_nfiles sg); VN (sg_size sg);
